@@ -85,6 +85,9 @@ def harness(tier, seed):
                     m[i][j] = rng.randint(1, mx)
                     if sym:
                         m[j][i] = m[i][j]
+        # the asymmetric generator may hit a symmetric matrix by chance (n = 2, small values): the expected flag is a property
+        # of the matrix, not of how it was generated
+        sym = all(m[a][b] == m[b][a] for a in range(n) for b in range(n))
         # --- write -> read
         try:
             inst = Instance("gen", 0, np.array(m, np.int64))
